@@ -7,6 +7,10 @@ model stage : MC_BpRuns   (run-length evaluation BpRuns = definitional BalancedP
                            find_open/enclose, rank directory, WithSelect / WithCsPoppy select,
                            select0 — refines the definitional spec on every bit string of the scaled
                            size, every length incl. stray bits and surplus words, every position)
+              MC_FcAutomaton (find_close_from as a TLC state machine, ONE ACTION PER CODE ARM: correct,
+                           terminates by a decreasing measure, carries the scan excess; `-coverage 1`
+                           per-action counts prove every live arm fires; 10 arms are unreachable
+                           (defensive `return None` arms and the two `is_close(pos) && excess <= 1` arms))
 trace stage : real BalancedParens, 6 constructions (owned/borrowed x NoSelect/WithSelect/WithCsPoppy,
               CsPoppy rates {0,1,2,3,64,255,256,257,4096}), default and `simd` builds, free
               find_close/find_open/enclose, in-word kernels — every recorded call validated by
@@ -23,6 +27,9 @@ Interpretation decisions (weaker reading where the statement is silent):
     them to the final word.  The calls the two known defects can touch (by INPUT CLASS, see
     defect_prone) are validated in a separate small trace file so that the known-finding skipping
     re-validates only that file; they are validated by the same specification.
+  * Development-only environment switches (mutation testing; never set by ./check or the coordinator):
+    C04_DEV_SKIP_MODEL (skip the /repo-independent model stage), C04_DEV_ONLY_BUILD=default|simd,
+    C04_DEV_FAST (skip the side file once a violation is already reported).
   * find_close_in_word on a close returns Some(p) ("matches itself", documented): demanded as documented.
 """
 import json
@@ -53,7 +60,7 @@ def sig_of(e, events, k):
     op = e.get("op")
     if op in COUNT_OPS:
         # 1-bits past len in a storage with surplus whole words (finding F6)
-        return {"event": "q", "op": op, "surplus_ones": b.get("sw1", 0) > 0}
+        return {"event": "q", "op": op, "surplus_ones": b.get("sw1", 0) > 0, "panic": e.get("r") == -2}
     sig = {"event": "q", "op": op, "panic": e.get("r") == -2, "surplus_words": b.get("sw", 0) > 0}
     if op == "f_find_close":
         sig["partial_last"] = b.get("len", 0) % 64 != 0
